@@ -118,6 +118,8 @@ def step(ds, o):
     return 'err:alreadyExists'
   except KeyError:
     return 'err:KeyError'
+  except ValueError:
+    return 'err:ValueError'      # malformed resource names / ids
 
 
 def run_real(kind, ops):
